@@ -18,6 +18,7 @@ import (
 	"context"
 	"reflect"
 
+	apiequality "k8s.io/apimachinery/pkg/api/equality"
 	"k8s.io/apimachinery/pkg/api/meta"
 	"k8s.io/apimachinery/pkg/runtime"
 	"k8s.io/apimachinery/pkg/util/validation/field"
@@ -131,7 +132,7 @@ func (s DefaultRESTStrategy) PrepareForUpdate(ctx context.Context, obj, old runt
 
 		// Spec and annotation updates bump the generation.
 		if !specEqual(specNew, specOld) ||
-			!reflect.DeepEqual(accessorNew.GetAnnotations(), accessorOld.GetAnnotations()) {
+			!semanticEqual(accessorNew.GetAnnotations(), accessorOld.GetAnnotations()) {
 			accessorNew.SetGeneration(accessorOld.GetGeneration() + int64(1))
 		}
 	}
@@ -144,7 +145,22 @@ func specEqual(specNew, specOld reflect.Value) bool {
 	if !specNew.IsValid() || !specOld.IsValid() {
 		return specNew.IsValid() == specOld.IsValid()
 	}
-	return reflect.DeepEqual(specNew.Interface(), specOld.Interface())
+	return semanticEqual(specNew.Interface(), specOld.Interface())
+}
+
+// semanticEqual is the comparison the upstream strategies use: an empty map,
+// list or byte string equals a missing one. A request that spells an empty
+// value out decodes to a non-nil empty value while the stored object holds nil,
+// reflect.DeepEqual would report a change that no reader of the object can see.
+// Semantic.DeepEqual panics on types with unexported fields it has no equality
+// function for, fall back to reflect.DeepEqual for those.
+func semanticEqual(a, b interface{}) (equal bool) {
+	defer func() {
+		if r := recover(); r != nil {
+			equal = reflect.DeepEqual(a, b)
+		}
+	}()
+	return apiequality.Semantic.DeepEqual(a, b)
 }
 
 func (DefaultRESTStrategy) Validate(ctx context.Context, obj runtime.Object) field.ErrorList {
